@@ -48,11 +48,17 @@ ASSUMPTIONS = [
 MIN_COUNTERS = {
     'quick': {'lift_method_evaluations': 5000, 'lift_builtin_evaluations': 5000,
               'lift_value_agreements': 6000, 'law_samples': 20000,
+              'stream_history_pulls_compared': 20000,
+              'stream_histories_poll_paused_then_continue': 500,
+              'stream_histories_exhaust_then_reset_operand': 300,
               'max_method_entry_points': 100, 'max_builtin_entry_points': 100,
               'meta_checks': 100},
     'thorough': {'lift_method_evaluations': 600000,
                  'lift_builtin_evaluations': 600000,
                  'lift_value_agreements': 800000, 'law_samples': 3000000,
+                 'stream_history_pulls_compared': 1000000,
+                 'stream_histories_poll_paused_then_continue': 20000,
+                 'stream_histories_exhaust_then_reset_operand': 10000,
                  'max_method_entry_points': 100, 'max_builtin_entry_points': 100,
                  'meta_checks': 100},
 }
@@ -69,6 +75,10 @@ def plan(tier, seed):
             shards.append({'name': f'{kind}{p}', 'mode': 'nrt', 'kind': kind,
                            'first_case': f, 'n': n, 'secs': secs,
                            'hard_timeout': secs + 120})
+    for p, (f, n) in enumerate(split(30000 if q else 1_200_000, 2)):
+        shards.append({'name': f'hist{p}', 'mode': 'nrt', 'kind': 'hist',
+                       'first_case': f, 'n': n, 'secs': secs,
+                       'hard_timeout': secs + 120})
     shards.append({'name': 'meta', 'mode': 'nrt', 'kind': 'meta', 'first_case': 0,
                    'n': 1, 'secs': secs, 'hard_timeout': secs + 120})
     return shards
@@ -388,6 +398,204 @@ def run_lift(spec, acc, src):
                         'other_values': vrepr(nfs), 'evaluates_to': vrepr(got)})
 
 
+# ---------------------------------------------------------------------------
+# multi-step histories on composed streams: next(s op t) = next(s) op next(t)
+# at every step while the operand routines are paused / resumed / reset /
+# stopped between pulls.  The expectation is never written by hand: twin
+# routines are driven through the same history and pulled left to right.
+
+def srepr(x, n=200):
+    try:
+        return repr(x)[:n]
+    except ValueError:          # int too large for str conversion
+        return '<huge int>'
+
+
+def _routine_pair(rng):
+    """Two identical fresh routines (operand and twin) over varying values."""
+    from sc3.base.stream import Routine
+    start, step = rng.choice([-3, 0, 1, 2, 7]), rng.choice([1, 2, -1, 3, 0.5])
+    length = rng.choice([2, 3, 4, None, None])      # None: endless
+
+    def gen():
+        n, k = start, 0
+        while length is None or k < length:
+            yield n
+            n += step
+            k += 1
+    return Routine(gen), Routine(gen), (start, step, length)
+
+
+def run_hist(spec, acc):
+    from vf import c15_kinds as ck, c15_ops as ops
+    from sc3.base.stream import StopStream
+    from sc3.base.clock import Scheduler, SystemClock
+    bents = ops.builtin_entries()
+    ments = ops.method_entries()
+    for e in ments:
+        e['random'] = ops.random_selector(e['selector'], bents)
+        e['src'] = 'method'
+    for e in bents:
+        e['src'] = 'builtin'
+        e['hook'] = e['arity']
+    entries = [e for e in ments + bents if not e['random']]
+    wrappers = [e for e in ments if not e['random'] and e['hook'] in
+                ('unop', 'binop', 'rbinop')]
+
+    def apply(e, a, objs):
+        if e['src'] == 'builtin':
+            return e['wrapper'](a, *objs)
+        if e['dunder']:
+            call = ops.DUNDER_CALL[e['name']]
+            return call(objs[0], a) if e['hook'] == 'rbinop' else call(a, *objs)
+        return getattr(a, e['name'])(*objs)
+
+    def selector_call(e, nsup):
+        """plain function (receiver value, other values) -> result / ('exc', T)"""
+        if e['src'] == 'builtin':
+            sel = e['func']
+            rest = list(e['opt_defaults'][nsup - e['nreq']:])
+            return lambda a, vals: ck.scalar_call(sel, a, *vals, *rest)
+        sel = e['selector']
+
+        def f(a, vals):
+            sargs = []
+            for kind_, v in e['template']:
+                if kind_ == 'const':
+                    sargs.append(v)
+                elif v < nsup:
+                    sargs.append(vals[v])
+                else:
+                    sargs.append(e['opt_defaults'][v - e['nreq']])
+            if e['hook'] == 'rbinop':
+                return ck.scalar_call(sel, sargs[0], a)
+            return ck.scalar_call(sel, a, *sargs)
+        return f
+
+    ne = len(entries)
+    for i in iter_cases(spec):
+        rng = case_rng(spec['seed'], 'C15', 'hist', i)
+        e = entries[i % ne]
+        hook = e['hook']
+        acc.count('h_' + ('m_' if e['src'] == 'method' else 'b_') + e['name'])
+        clock = Scheduler(SystemClock)          # never advanced
+        reals, twins, descr = [], [], []
+        r, t, d = _routine_pair(rng)
+        reals.append(r); twins.append(t); descr.append(d)
+        nsup = e['nreq'] + (rng.randint(0, e['nopt']) if e['nopt'] else 0)
+        objs, others = [], []      # others: ('num', v) | ('rt', index)
+        for j in range(nsup):
+            if hook != 'rbinop' and rng.random() < 0.4:
+                r, t, d = _routine_pair(rng)
+                reals.append(r); twins.append(t); descr.append(d)
+                objs.append(r); others.append(('rt', len(reals) - 1))
+            else:
+                v = ck.num(rng)
+                objs.append(v); others.append(('num', v))
+        try:
+            comp = apply(e, reals[0], objs)
+        except Exception as ex:
+            acc.count('stream_history_compose_raises')
+            continue
+        inner = selector_call(e, nsup)
+        outer = None
+        if rng.random() < 0.35:                 # e.g. -(r + 1)
+            e2 = rng.choice(wrappers)
+            v2 = ck.num(rng)
+            n2 = e2['nreq']
+            try:
+                comp = apply(e2, comp, [v2] * n2)
+            except Exception:
+                acc.count('stream_history_compose_raises')
+                continue
+            f2 = selector_call(e2, n2)
+            outer = (e2['name'], lambda x, f2=f2, v2=v2, n2=n2: f2(x, [v2] * n2))
+        if not hasattr(comp, 'next'):
+            acc.count('stream_history_not_a_stream')
+            continue
+
+        def expected_pull():
+            # next(s) op next(t), left to right; a StopStream (PausedStream is
+            # one) of an operand ends this pull before later operands are asked
+            try:
+                if hook == 'rbinop':
+                    a = twins[0].next()
+                    vals = [o[1] for o in others]
+                else:
+                    a = twins[0].next()
+                    vals = []
+                    for o in others:
+                        vals.append(o[1] if o[0] == 'num' else twins[o[1]].next())
+            except StopStream:
+                return ('exc', 'StopStream')
+            res = inner(a, vals)
+            if outer is not None and not ck.is_exc(res):
+                res = outer[1](res)
+            return res
+
+        def real_pull():
+            try:
+                return comp.next()
+            except StopStream:
+                return ('exc', 'StopStream')
+            except Exception as ex:
+                return ('exc', type(ex).__name__)
+
+        steps = rng.randint(5, 14)
+        hist, last_ctl, bad = [], 'none', None
+        paused_polled = [False] * len(reals)
+        saw_end = False
+        f_poll = f_exh = False
+        for k in range(steps):
+            c = rng.random()
+            if c < 0.55 or k == 0:
+                exp, got = expected_pull(), real_pull()
+                hist.append(('pull', srepr(exp, 60)))
+                acc.count('stream_history_pulls_compared')
+                if ck.is_exc(exp) and exp[1] == 'StopStream':
+                    saw_end = True
+                    for idx, t in enumerate(twins):
+                        if t.state == t.State.Paused:
+                            paused_polled[idx] = True
+                elif any(paused_polled) and last_ctl in ('resume', 'reset'):
+                    f_poll = True
+                if not ck.same(exp, got):
+                    bad = (k, exp, got)
+                    break
+            else:
+                idx = rng.randrange(len(reals))
+                op = rng.choices(['pause', 'resume', 'reset', 'stop'],
+                                 [4, 4, 3, 1])[0]
+                for rt in (reals[idx], twins[idx]):
+                    if op == 'resume':
+                        rt.resume(clock)
+                    else:
+                        getattr(rt, op)()
+                if op == 'reset' and saw_end:
+                    f_exh = True
+                hist.append((op, idx))
+                last_ctl = op
+                acc.count('stream_history_' + op)
+        if f_poll:
+            acc.count('stream_histories_poll_paused_then_continue')
+        if f_exh:
+            acc.count('stream_histories_exhaust_then_reset_operand')
+        acc.case(h64((e['src'], e['name'], repr(others), repr(descr), repr(hist))),
+                 nontrivial=f_poll or f_exh)
+        if bad:
+            k, exp, got = bad
+            acc.violation(
+                f'C15/stream-history/diverges-after-{last_ctl}',
+                {'case': i, e['src']: e['name'], 'hook': hook,
+                 'wrapped_in': outer[0] if outer else None,
+                 'routines(start,step,length)': descr, 'others': others,
+                 'history': hist, 'step': k, 'expected': srepr(exp),
+                 'library': srepr(got)})
+        elif acc.want_sample() and (f_poll or f_exh) and rng.random() < 0.02:
+            acc.sample({'case': i, e['src']: e['name'], 'others': others,
+                        'routines': descr, 'history': hist})
+
+
 def run_laws(spec, acc):
     from vf import c15_laws as laws
     from sc3.base import builtins as bi
@@ -541,5 +749,7 @@ def run_shard(spec, acc):
         run_lift(spec, acc, 'builtin')
     elif kind == 'laws':
         run_laws(spec, acc)
+    elif kind == 'hist':
+        run_hist(spec, acc)
     else:
         run_meta(spec, acc)
